@@ -186,6 +186,10 @@ func propConfig(id, verifDir string) PropConfig {
 		return PropConfig{Pkgs: []string{"./gnmidiff"}, ExtSpecs: ext}
 	case "C15", "C34", "C33", "C17":
 		return PropConfig{Gen: true, ExtSpecs: ext}
+	case "C24":
+		return PropConfig{Pkgs: []string{"./protomap"}, ExtSpecs: ext}
+	case "C07":
+		return PropConfig{Pkgs: []string{"./util", "./ytypes"}, ExtSpecs: ext}
 	case "C05":
 		return PropConfig{Pkgs: []string{"./ygot"}, ExtSpecs: ext}
 	case "C16", "C19":
